@@ -1,7 +1,7 @@
 (* C19: the witnesses of Witness19.v evaluated (vm_compute) on the model and judged by the oracle. *)
 From Coq Require Import NArith ZArith List Bool String.
-From F8 Require Import Sess.Bytes Sess.Msg Sess.Persist Sess.Session Sess.SimpleCodec Sess.Wire
-  Sess.SendLemmas C19.Run19 C19.Spec_C19 C19.Witness19 C19.DeliverProofs C19.ResendWire.
+From F8 Require Import Sess.Bytes Sess.Msg Sess.Persist Sess.Session Sess.SimpleCodec Sess.Wire Sess.SessLemmas
+  Sess.SendLemmas C19.Run19 C19.Spec_C19 C19.CodecDecode C19.Witness19 C19.DeliverProofs C19.ResendWire C19.GateProofs.
 Import ListNotations.
 Local Open Scope N_scope.
 
@@ -12,12 +12,33 @@ Definition p_ret (x : bool * sess * list event) : bool := fst (fst x).
 Definition p_sess (x : bool * sess * list event) : sess := snd (fst x).
 Definition p_evs (x : bool * sess * list event) : list event := snd x.
 
-(* F24: expected 2, MsgSeqNum 7, "34=2" inside OnBehalfOfCompID: delivered *)
-Lemma w34 :
+(* F24 as it was (Session::process searching for "34=" anywhere: pat_34_orig): expected 2, MsgSeqNum 7, "34=2"
+   inside OnBehalfOfCompID: delivered *)
+Definition proc_orig (raw : list N) (s : sess) := process_with sc0 dec0 fl0 pat_34_orig T0 raw s.
+Lemma w34_orig :
   s_state s_cont = st_continuous /\ s_next_recv s_cont = 2 /\
-  decoded_seq raw_34 = Some 7 /\ raw_seq raw_34 = Some 2 /\
-  delivered (p_evs (proc raw_34 s_cont)) = true /\
-  c19_ok sc0 ops_34 (run0 ops_34) = false.
+  decoded_seq raw_34 = Some 7 /\ raw_seq_with pat_34_orig raw_34 = Some 2 /\
+  delivered (p_evs (proc_orig raw_34 s_cont)) = true.
+Proof. vm_compute. repeat split; reflexivity. Qed.
+
+(* ... and since the repair (SOH "34=": pat_34): the same message is gated on 7, not delivered, answered with
+   ResendRequest(2..); the oracle accepts the history *)
+Lemma w34_fixed :
+  raw_seq raw_34 = Some 7 /\
+  delivered (p_evs (proc raw_34 s_cont)) = false /\ resend_from 2 (p_evs (proc raw_34 s_cont)) = true /\
+  c19_ok sc0 lens0 ops_34 (run0 ops_34) = true.
+Proof. vm_compute. repeat split; reflexivity. Qed.
+
+(* what still escapes: SOH "34=2" inside the content of a data field (SecureData 91 behind SecureDataLen 90) in
+   front of MsgSeqNum 7; decoder = the Codec group's model of Message::factory *)
+Definition decoded_seq_c (raw : list N) : option N :=
+  match dec0c raw with DecOk m => Some (field_seq m) | DecExc _ _ => None end.
+Definition proc_c (raw : list N) (s : sess) := process sc0 dec0c fl0 T0 raw s.
+Lemma wd34 :
+  s_state s_cont = st_continuous /\ s_next_recv s_cont = 2 /\
+  decoded_seq_c raw_d34 = Some 7 /\ raw_seq raw_d34 = Some 2 /\
+  delivered (p_evs (proc_c raw_d34 s_cont)) = true /\
+  c19_ok sc0 lens0 ops_d34 (run0c ops_d34) = false.
 Proof. vm_compute. repeat split; reflexivity. Qed.
 
 (* F26: a second message above the expected number while the resend is pending: the session stops, nothing is sent *)
@@ -26,7 +47,7 @@ Lemma wgap :
   decoded_seq (order_msg "6" []) = Some 6 /\ raw_seq (order_msg "6" []) = Some 6 /\
   p_ret (proc (order_msg "6" []) s_pending) = false /\ p_evs (proc (order_msg "6" []) s_pending) = [] /\
   s_shutdown (p_sess (proc (order_msg "6" []) s_pending)) = true /\
-  c19_ok sc0 ops_second_gap (run0 ops_second_gap) = false.
+  c19_ok sc0 lens0 ops_second_gap (run0 ops_second_gap) = false.
 Proof. vm_compute. repeat split; reflexivity. Qed.
 
 (* F25: too low / wrong CompID in state continuous: the session stops WITHOUT a Logout *)
@@ -35,11 +56,11 @@ Lemma wlow :
   decoded_seq (order_msg "2" []) = Some 2 /\ raw_seq (order_msg "2" []) = Some 2 /\
   p_ret (proc (order_msg "2" []) s_cont3) = false /\ p_evs (proc (order_msg "2" []) s_cont3) = [] /\
   s_shutdown (p_sess (proc (order_msg "2" []) s_cont3)) = true /\
-  c19_ok sc0 ops_low (run0 ops_low) = false /\
+  c19_ok sc0 lens0 ops_low (run0 ops_low) = false /\
   pr_ec (s_par s_cont) = true /\ decoded_seq raw_xxx = Some 2 /\
   p_ret (proc raw_xxx s_cont) = false /\ p_evs (proc raw_xxx s_cont) = [] /\
   s_shutdown (p_sess (proc raw_xxx s_cont)) = true /\
-  c19_ok sc0 ops_compid (run0 ops_compid) = false.
+  c19_ok sc0 lens0 ops_compid (run0 ops_compid) = false.
 Proof. vm_compute. repeat split; reflexivity. Qed.
 
 (* no "34=": Reject with RefSeqNum 0, expected number 2 -> 3 *)
@@ -49,7 +70,7 @@ Lemma wno34 :
   existsb (fun e => match e with
                     | EOut o => beq (val (fld T_MsgType (tokens o))) [51] && beq (val (fld T_RefSeqNum (tokens o))) [48]
                     | _ => false end) (p_evs (proc raw_no34 s_cont)) = true /\
-  c19_ok sc0 ops_no34 (run0 ops_no34) = true.
+  c19_ok sc0 lens0 ops_no34 (run0 ops_no34) = true.
 Proof. vm_compute. repeat split; reflexivity. Qed.
 
 (* the hypotheses of the partial theorems are met by ordinary traffic, and the oracle accepts it:
@@ -57,12 +78,12 @@ Proof. vm_compute. repeat split; reflexivity. Qed.
    delivered; step 5: number 7 at expected 5: not delivered, ResendRequest from 5; a too-low Logon in state
    logon_received is answered with a Logout *)
 Lemma wgood :
-  c19_ok sc0 ops_good (run0 ops_good) = true /\
+  c19_ok sc0 lens0 ops_good (run0 ops_good) = true /\
   has_deliver (nth_events 2 (run0 ops_good)) = true /\
   has_deliver (nth_events 3 (run0 ops_good)) = true /\
   has_deliver (nth_events 5 (run0 ops_good)) = false /\
   resend_from 5 (nth_events 5 (run0 ops_good)) = true /\
-  c19_ok sc0 ops_logon_low (run0 ops_logon_low) = true /\
+  c19_ok sc0 lens0 ops_logon_low (run0 ops_logon_low) = true /\
   has_out [53] (last_events (run0 ops_logon_low)) = true.
 Proof. vm_compute. repeat split; reflexivity. Qed.
 
@@ -81,17 +102,38 @@ Proof.
   intro H. inversion H. exists m. split; reflexivity.
 Qed.
 
-Lemma refuted_34 :
+Lemma refuted_34_orig :
   exists (s : sess) (raw : list N) (m : msg),
-    dec0 raw = DecOk m /\ field_seq m = 7 /\ raw_seq raw = Some 2 /\
+    dec0 raw = DecOk m /\ field_seq m = 7 /\ raw_seq_with pat_34_orig raw = Some 2 /\
     s_state s = st_continuous /\ s_next_recv s = 2 /\
-    delivered (p_evs (proc raw s)) = true /\
-    exists ops, c19_ok sc0 ops (run0 ops) = false.
+    delivered (p_evs (proc_orig raw s)) = true /\
+    (* the repaired search gates the same message on its MsgSeqNum *)
+    raw_seq raw = Some 7 /\ delivered (p_evs (proc raw s)) = false /\ resend_from 2 (p_evs (proc raw s)) = true.
 Proof.
-  destruct w34 as [A [B [C [D [E F]]]]]. destruct (decoded_seq_inv _ _ C) as [m [M1 M2]].
+  destruct w34_orig as [A [B [C [D E]]]]. destruct w34_fixed as [F [G [H _]]].
+  destruct (decoded_seq_inv _ _ C) as [m [M1 M2]].
   exists s_cont, raw_34, m.
   split; [exact M1|]. split; [exact M2|]. split; [exact D|]. split; [exact A|]. split; [exact B|].
-  split; [exact E|]. exists ops_34. exact F.
+  split; [exact E|]. split; [exact F|]. split; [exact G|exact H].
+Qed.
+
+Lemma decoded_seq_c_inv : forall raw q, decoded_seq_c raw = Some q -> exists m, dec0c raw = DecOk m /\ field_seq m = q.
+Proof.
+  intros raw q. unfold decoded_seq_c. destruct (dec0c raw) as [m|t f]; [|discriminate].
+  intro H. inversion H. exists m. split; reflexivity.
+Qed.
+
+Lemma refuted_34_data :
+  exists (s : sess) (raw : list N) (m : msg),
+    dec0c raw = DecOk m /\ field_seq m = 7 /\ raw_seq raw = Some 2 /\
+    s_state s = st_continuous /\ s_next_recv s = 2 /\
+    delivered (p_evs (proc_c raw s)) = true /\
+    exists ops, c19_ok sc0 lens0 ops (run0c ops) = false.
+Proof.
+  destruct wd34 as [A [B [C [D [E F]]]]]. destruct (decoded_seq_c_inv _ _ C) as [m [M1 M2]].
+  exists s_cont, raw_d34, m.
+  split; [exact M1|]. split; [exact M2|]. split; [exact D|]. split; [exact A|]. split; [exact B|].
+  split; [exact E|]. exists ops_d34. exact F.
 Qed.
 
 Lemma proc_eq : forall raw s r s' e,
@@ -118,7 +160,7 @@ Lemma refuted_second_gap :
     dec0 raw = DecOk m /\ raw_seq raw = Some (field_seq m) /\
     s_state s = st_resend_request_sent /\ s_next_recv s < field_seq m /\
     proc raw s = (false, stop s, []) /\
-    exists ops, c19_ok sc0 ops (run0 ops) = false.
+    exists ops, c19_ok sc0 lens0 ops (run0 ops) = false.
 Proof.
   destruct wgap as [A [B [C [D [E [F [G H]]]]]]]. destruct (decoded_seq_inv _ _ C) as [m [M1 M2]].
   exists s_pending, (order_msg "6" []), m.
@@ -132,11 +174,11 @@ Lemma refuted_no_logout :
      dec0 raw = DecOk m /\ raw_seq raw = Some (field_seq m) /\
      s_state s = st_continuous /\ field_seq m < s_next_recv s /\ possdup_of m = false /\
      proc raw s = (false, stop s, []) /\
-     exists ops, c19_ok sc0 ops (run0 ops) = false) /\
+     exists ops, c19_ok sc0 lens0 ops (run0 ops) = false) /\
   (exists (s : sess) (raw : list N) (m : msg),
      dec0 raw = DecOk m /\ s_state s = st_continuous /\ pr_ec (s_par s) = true /\ compid_pass s m = false /\
      proc raw s = (false, stop s, []) /\
-     exists ops, c19_ok sc0 ops (run0 ops) = false).
+     exists ops, c19_ok sc0 lens0 ops (run0 ops) = false).
 Proof.
   destruct wlow as [A [B [C [D [E [F [G [H [I [J [K [L [M N]]]]]]]]]]]]]. split.
   - destruct (decoded_seq_inv _ _ C) as [m [M1 M2]].
@@ -147,7 +189,7 @@ Proof.
     exists ops_low. exact H.
   - destruct (decoded_seq_inv _ _ J) as [m [M1 M2]].
     exists s_cont, raw_xxx, m.
-    split; [exact M1|]. split; [destruct w34 as [S _]; exact S|]. split; [exact I|].
+    split; [exact M1|]. split; [destruct w34_orig as [S _]; exact S|]. split; [exact I|].
     split; [exact (facts_xxx m M1)|].
     split; [apply proc_eq; [exact K|exact stopped_xxx|exact L]|].
     exists ops_compid. exact N.
@@ -161,3 +203,16 @@ Proof.
   - unfold knows_rr. eexists; eexists; eexists. vm_compute. repeat split; reflexivity.
   - vm_compute. repeat split; reflexivity.
 Qed.
+
+(* the witness schema and an ordinary message meet the hypotheses of delivery_tokens *)
+Local Open Scope string_scope.
+Local Open Scope list_scope.
+Local Open Scope N_scope.
+Definition toks_order2 : list (list N * list N) :=
+  map bb ([("8","FIX.4.2"); ("9","101"); ("35","D"); ("49","SRV"); ("56","CLI"); ("34","2"); ("52",T)] ++ order ++ [("10","131")]).
+Lemma wtokens :
+  In T_MsgSeqNum (sc_hdr_mand sc0) /\
+  forallb tok_ok19 toks_order2 = true /\ enc_toks toks_order2 = order_msg "2" [] /\
+  decoded_seq (enc_toks toks_order2) = Some 2 /\
+  delivered (p_evs (proc (enc_toks toks_order2) s_cont)) = true.
+Proof. split; [left; reflexivity|]. vm_compute. repeat split; reflexivity. Qed.
